@@ -413,6 +413,9 @@ func (ex *Expect) evalComponent(ni int) {
 		out := &Stream{Ordered: in.Ordered}
 		for _, it := range in.Items {
 			// the tagger mutates the record the item carries (shared by pointer)
+			// (the component re-writes the audit file of every item it passes on, tagged or not)
+			ex.Tagged = true
+			ex.TagKeys[n.TagKey] = true
 			if tagValueFor(n, it.Path) == "" {
 				out.Items = append(out.Items, it)
 				continue
